@@ -132,6 +132,8 @@ def monitor(ex, final):
                 continue
             if not det['live'] or not det['settled_after'] or det['other_causes']:
                 continue
+            if ex.world.app_log.busy:
+                continue        # a handler is still taking its time: the unit is not done yet
             if t > fresh_until(ex, s, t):
                 continue
             if cause == 'protocol' and not proto_must_end(ex, s, step):
@@ -236,7 +238,13 @@ PROFILE = {
                          ['ret', rm.tag([1])], ['raise'], ['ret', rm.tag(True)],
                          ['ret', rm.tag('')]],
     'disconnect_all_pct': 2,
-    'world_kw_st': st.fixed_dictionaries({'legacy_disconnect': st.sampled_from([False, False, True])}),
+    'world_kw_st': st.fixed_dictionaries({
+        'legacy_disconnect': st.sampled_from([False, False, True]),
+        # handlers that take (virtual) time: the event is logged when the handler starts, other
+        # end causes and client units arrive while it is still running
+        'handler_delay': st.sampled_from([{}, {}, {}, {'disconnect': 0.25}, {'disconnect': 0.25},
+                                          {'disconnect': 0.25, 'message': 0.25},
+                                          {'message': 0.25}])}),
 }
 
 
@@ -264,6 +272,9 @@ def summarize(ex):
     if any(a['op'] == 'fault' for a in ex.actions):
         nt = True
         cls.add('handler-fault')
+    for k, v in sorted(ex.world.app_log.delay.items()):
+        if v:
+            cls.add('slow-%s-handler' % k)
     n = sum(1 for _, e, _, _ in ex.world.app_log.events if e == 'disconnect')
     return {'disconnects': n, 'sessions': len(ex.sessions)}, nt, sorted(cls)
 
